@@ -8,6 +8,7 @@ import (
 	"fmt"
 	"os"
 	"path/filepath"
+	"runtime/pprof"
 	"sort"
 	"strings"
 	"time"
@@ -28,6 +29,11 @@ type output struct {
 	Errors    []string
 }
 
+type multiFlag []string
+
+func (m *multiFlag) String() string     { return strings.Join(*m, ",") }
+func (m *multiFlag) Set(v string) error { *m = append(*m, v); return nil }
+
 func main() {
 	var (
 		repo      = flag.String("repo", "/repo", "repository root")
@@ -46,8 +52,17 @@ func main() {
 		out       = flag.String("out", "", "write JSON here (default stdout)")
 		trace     = flag.Bool("trace", false, "trace instructions")
 		list      = flag.Bool("list", false, "list harness functions (H_*) and exit")
+		nospec    = flag.Bool("nospec", false, "disable if-conversion")
+		extra     multiFlag
+		cpuprof   = flag.String("cpuprofile", "", "write a CPU profile")
 	)
+	flag.Var(&extra, "overlayfile", "real=virtual: additional overlay file (repeatable)")
 	flag.Parse()
+	if *cpuprof != "" {
+		f, _ := os.Create(*cpuprof)
+		pprof.StartCPUProfile(f)
+		defer pprof.StopCPUProfile()
+	}
 
 	o := &output{Repo: *repo, Package: *pkgPath}
 	emit := func() {
@@ -85,6 +100,22 @@ func main() {
 		o.Errors = append(o.Errors, err.Error())
 		emit()
 		os.Exit(2)
+	}
+
+	for _, e := range extra {
+		real, virt, ok := strings.Cut(e, "=")
+		if !ok {
+			o.Errors = append(o.Errors, "bad -overlayfile "+e)
+			emit()
+			os.Exit(2)
+		}
+		data, err := os.ReadFile(real)
+		if err != nil {
+			o.Errors = append(o.Errors, err.Error())
+			emit()
+			os.Exit(2)
+		}
+		overlay[virt] = data
 	}
 
 	t0 := time.Now()
@@ -154,6 +185,7 @@ func main() {
 			MaxPaths:  *maxPaths,
 			Trace:     *trace,
 			Witnesses: *witnesses,
+			NoSpec:    *nospec,
 		}
 		if *budget > 0 {
 			c.Deadline = time.Now().Add(*budget)
@@ -163,5 +195,6 @@ func main() {
 		fmt.Fprintf(os.Stderr, "gosx: %s: paths=%d infeasible=%d incomplete=%d violations=%d branches=%d wall=%.1fs\n",
 			h, r.Paths, r.Infeasible, len(r.Incomplete), len(r.Violations), r.Branches, r.Wall)
 	}
+	interp.DumpLocalsProf()
 	emit()
 }
